@@ -449,7 +449,8 @@ class NamedTypes(object):
             except AttributeError:
                 tagSet = asn1Object.tagSet
 
-            if minTagSet is None or tagSet < minTagSet:
+            # X.680 (8.6): the smallest of the outermost tags
+            if minTagSet is None or tagSet[-1:] < minTagSet[-1:]:
                 minTagSet = tagSet
 
         return minTagSet or tag.TagSet()
